@@ -438,9 +438,11 @@ Fixpoint exec (fuel : nat) (code : list N) (ip : N) (m : mstate) {struct fuel} :
           | None => fail (set_stk m s) EScript
           | Some uf =>
               if negb (Nat.eqb (List.length (fparams uf)) (List.length args)) then fail (set_stk m s) EScript
+              else if negb (max_call_depth =? 0) && (max_call_depth <=? N.of_nat (env_depth (menv m)))
+              then fail (set_stk m s) EScript     (* calls and loops nested too deeply *)
               else
                 let depth := env_depth (menv m) in
-                let e1 := declare_all (env_push (menv m)) (fparams uf) args in
+                let e1 := declare_all (env_push_frame (menv m)) (fparams uf) args in
                 match exec f (fcode uf) 0 (mkM [] e1 (trace m) (polls m)) with
                 | (ODone out, m2) =>
                     let e2 := env_truncate (menv m2) depth in
